@@ -62,6 +62,7 @@ type gtxScope struct {
 	Outcome   string    `json:"outcome"`
 	Label     string    `json:"label"`
 	CancelAt  string    `json:"cancel_at,omitempty"`
+	ShareConn bool      `json:"share_conn,omitempty"`
 }
 
 type tval struct {
